@@ -89,7 +89,6 @@ impl Stream for C20 {
             for j in 0..per_doc {
                 let kind = (k * per_doc + j) % FAULT_KINDS;
                 let Some((froot, fault)) = plant_fault(&mut rng, &root, kind) else { continue };
-                // faults only the C++ pass sees are not errors of the preview mode
                 let labels = vec![format!("fault:{}", fault.name), format!("at:{}", root.pre_order()[fault.obj].class)];
                 let fdoc = Doc::build(&froot, &records, std::slice::from_ref(&fault));
                 cases.push(Case { kind: "model", labels: labels.clone(), request: fdoc.request(Mode::Omit) });
@@ -197,7 +196,7 @@ fn witness_request(name: &str) -> Sexp {
             let doc = |l: Obj| root(vec![Obj::new("QSpinBox").with_id("srcSpin"), l]);
             let free = doc(Obj::new("QLabel").with_id("l"));
             let faulted = doc(Obj::new("QLabel").with_id("l").bind("text", "srcSpin.value"));
-            let f = mk("dynamic-type-mismatch", 2, "text", "srcSpin.value", LeafSpec { konst: Konst::Dyn, ret_ok: false, ..base.clone() }, false, "expression type mismatch", (true, true, false));
+            let f = mk("dynamic-type-mismatch", 2, "text", "srcSpin.value", LeafSpec { konst: Konst::Dyn, ret_ok: false, ..base.clone() }, false, "expression type mismatch", (true, true, true));
             local_case(0, 0, &free, &faulted, &f, false).0
         }
         _ => node("bad-request", vec![]),
@@ -318,6 +317,16 @@ fn local_oracle(tm: &TypeMap, args: &[Sexp]) -> Sexp {
     }
     let inside = |t: &env::Translation| -> Vec<String> { t.diags.iter().filter(|d| d.is_error && f.range.0 <= d.start && d.end <= f.range.1).map(|d| d.message.clone()).collect() };
     let omit_inside = inside(&a);
+    // every error is still reported: what generate mode reports inside the planted binding, omit mode must report too
+    // (errors only `UiSupportCode::build` can see: F21, repaired in /repo c47e7fb — this check fails if that is reverted)
+    let g = env::translate(tm, &src, "MyType", Mode::Generate);
+    if let Some(m) = inside(&g).iter().find(|m| !omit_inside.contains(m)) {
+        return fail(format!(
+            "fault {} at '{at}': error reported in generate mode only (C++ pass): '{m}'; omit mode reports {}",
+            f.name,
+            if omit_inside.is_empty() { "nothing for this binding".to_owned() } else { format!("{omit_inside:?}") }
+        ));
+    }
     if f.reported.2 && !omit_inside.iter().any(|m| m.contains(&f.message)) {
         return fail(format!("fault {}: error '{}' not reported in omit mode; got {:?}", f.name, f.message, a.diags.iter().map(|d| d.message.clone()).collect::<Vec<_>>()));
     }
@@ -361,16 +370,6 @@ fn local_oracle(tm: &TypeMap, args: &[Sexp]) -> Sexp {
         for p in &own_a {
             if !own_b.contains(p) && *p != lost {
                 return fail(format!("fault {} at '{at}': property {p} appears only in the faulted run", f.name));
-            }
-        }
-    }
-    // every error is still reported: what generate mode reports inside the planted binding, omit mode must report too
-    if !f.reported.2 && omit_inside.is_empty() {
-        let g = env::translate(tm, &src, "MyType", Mode::Generate);
-        let gen_inside = inside(&g);
-        if let Some(m) = gen_inside.first() {
-            if known.is_none() {
-                known = Some(format!("fault {} at '{at}': error reported in generate mode only (C++ pass): '{m}'; omit mode reports nothing for this binding", f.name));
             }
         }
     }
